@@ -342,6 +342,10 @@ func refRoot(d, ref string) string {
 
 // what LIST (lsub=false) or LSUB (lsub=true) must return, sorted by name
 func (s *refState) list(lsub bool, ref, pat string) []listed {
+	// the reference is a mailbox name: INBOX in any spelling is INBOX
+	if asciiFoldEq(ref, "INBOX") {
+		ref = "INBOX"
+	}
 	type off struct{ isRow bool }
 	offered := map[string]off{}
 	var order []string
